@@ -163,13 +163,7 @@ var alloc(var type)      { return alloc_by(type, ALLOC_STANDARD); }
 var alloc_raw(var type)  { return alloc_by(type, ALLOC_RAW); }
 var alloc_root(var type) { return alloc_by(type, ALLOC_ROOT); }
 
-void dealloc(var self) {
-
-  struct Alloc* a = instance(self, Alloc);
-  if (a and a->dealloc) {
-    a->dealloc(self);
-    return;
-  }
+static void dealloc_check(var self) {
 
 #if CELLO_ALLOC_CHECK == 1
   if (self is NULL) {
@@ -194,6 +188,18 @@ void dealloc(var self) {
       "which was allocated inside a data structure!", self); 
   }
 #endif
+
+}
+
+void dealloc(var self) {
+
+  struct Alloc* a = instance(self, Alloc);
+  if (a and a->dealloc) {
+    a->dealloc(self);
+    return;
+  }
+
+  dealloc_check(self);
   
 #if CELLO_ALLOC_CHECK == 1
   size_t s = size(type_of(self));
@@ -355,6 +361,12 @@ static void del_by(var self, int method) {
 #endif
     break;
     case ALLOC_RAW: break;
+  }
+  
+  /* refuse a non-heap object before its destructor releases anything */
+  struct Alloc* a = instance(self, Alloc);
+  if (not (a and a->dealloc)) {
+    dealloc_check(self);
   }
   
   dealloc(destruct(self));
